@@ -315,6 +315,8 @@ func registerNatives(e *Engine) {
 		// time.Time{wall, ext, loc}
 		return &Struct{F: []Value{BVC(64, 0), t, NilPtr}}, true
 	}
+	// used by package time's own initialisation (start of the monotonic clock)
+	n["time.runtimeNano"] = func(e *Engine, g *G, cs *callSite, a []Value) (Value, bool) { return I64C(1), true }
 	n["time.Since"] = func(e *Engine, g *G, cs *callSite, a []Value) (Value, bool) {
 		d := e.freshInternal("since", BV(64))
 		e.assume(BVCmp("bvsle", I64C(0), d))
